@@ -159,13 +159,6 @@ Proof.
     rewrite !merge_vec, Ha, Hb. f_equal. apply zipm_ext. intros; apply IHk; assumption.
 Qed.
 
-(** the three modifiable flags of a party (bits 0, 1, 7 of its [tx_modifiable]) *)
-Definition fl3 := (bool * bool * bool)%type.
-Definition getf (f : fl3) (i : nat) : bool :=
-  let '(a, b, c) := f in
-  match i with 0%nat => a | 1%nat => b | 7%nat => c | _ => false end.
-Definition and3 (f g : fl3) : fl3 :=
-  let '(a, b, c) := f in let '(a', b', c') := g in (a && a', b && b', c && c').
 Lemma getf_and3 f g i : getf (and3 f g) i = andf (getf f) (getf g) i.
 Proof.
   destruct f as [[a b] c], g as [[a' b'] c']. unfold andf. cbn.
@@ -314,3 +307,19 @@ Proof.
     cbn [kinds_of flat_list]. cbn [snd] in Hs. rewrite (Hs S1), (IH S2). reflexivity.
   - cbn [sflat] in S. cbn [kind_of flat]. apply novec_kind_of; assumption.
 Qed.
+
+Lemma ifold_append k : forall l1 l2 p, ifold k p (l1 ++ l2) = obind (ifold k p l1) (fun a => ifold k a l2).
+Proof.
+  induction l1 as [|x l1 IH]; intros l2 p; [reflexivity|].
+  cbn [app ifold]. destruct (imerge k p x) as [a|]; cbn [obind]; [apply IH | reflexivity].
+Qed.
+
+Lemma fold_merge_append (m : D -> D -> option D) : forall l1 l2 p,
+  fold_merge m p (l1 ++ l2) = obind (fold_merge m p l1) (fun a => fold_merge m a l2).
+Proof.
+  induction l1 as [|x l1 IH]; intros l2 p; [reflexivity|].
+  cbn [app fold_merge]. destruct (m p x) as [a|]; cbn [obind]; [apply IH | reflexivity].
+Qed.
+
+Lemma obind_some {A} (o : option A) : obind o Some = o.
+Proof. destruct o; reflexivity. Qed.
